@@ -11,14 +11,18 @@ program counter, `step_inv`).  Ties on every run of `bin/check C02`:
    `step` (driver `drv_c02`), with exclusion / try / deadlock / lost-update / livelock oracles on the
    implementation.
 
-Wake-up: the reader-queue half is proved (`rw_readers_no_lost_wakeup_partial`, invariant `RQ2` in
-`Proofs/RwWake.lean`); the writer-queue half and the derived no-deadlock statement are NOT proved: the full
+Wake-up: the reader-queue half is proved for every execution of the model (`rw_readers_no_lost_wakeup_partial`,
+invariant `RQ2` in `Proofs/RwWake.lean`).  The writer-queue half is proved (`rw_writers_no_lost_wakeup_sc_partial`,
+invariant `WQ` in `Proofs/RwWakeW.lean`) for the executions in which the two loads of `write_contended`'s hand-shake
+(Acquire load of `writer_notify`, then the re-read of `state`) observe current values and `writer_notify` does not
+wrap; every other load may still observe any value.  The derived no-deadlock statement is NOT proved: the full
 statement is kept below as a comment (`rw_no_lost_wakeup`), the schedule exploration of the implementation with its
 deadlock and livelock oracles is the supporting (not substituting) evidence.
 -/
 import TinyVerif.Model.RwLock
 import TinyVerif.Proofs.RwStep
 import TinyVerif.Proofs.RwWake
+import TinyVerif.Proofs.RwWakeW
 import TinyVerif.Gen.SyncSites
 set_option linter.unusedSimpArgs false
 set_option linter.unusedVariables false
@@ -276,15 +280,97 @@ theorem rw_readers_no_lost_wakeup_partial (c : Cfg) (hc : c.Good) (s : St) (h : 
   obtain ⟨progs, evs, h⟩ := h
   exact (run_rq c hc _ s evs h (init_inv progs) (init_rq2 progs)).rq hp
 
+/-! ### the writer queue, for hand-shake loads that observe current values -/
+
+theorem runW_run (c : Cfg) (s s' : St) (evs : List (Nat × Ev)) (h : runW c s evs = some s') : run c s evs = some s' := by
+  induction evs generalizing s with
+  | nil => simpa [runW, run] using h
+  | cons x rest ih =>
+    obtain ⟨i, e⟩ := x
+    simp only [runW] at h
+    split at h
+    · rename_i s1 h1
+      simp only [run, stepW_step c s s1 i e h1]
+      exact ih s1 h
+    · simp at h
+
+theorem runW_wq (c : Cfg) (hc : c.Good) (s s' : St) (evs : List (Nat × Ev)) (h : runW c s evs = some s')
+    (hinv : RInv s) (hq : WQ s) : WQ s' := by
+  induction evs generalizing s with
+  | nil => simp [runW] at h; subst h; exact hq
+  | cons x rest ih =>
+    obtain ⟨i, e⟩ := x
+    simp only [runW] at h
+    split at h
+    · rename_i s1 h1
+      exact ih s1 h (step_inv c hc s s1 i e (stepW_step c s s1 i e h1) hinv) (step_wq c s s1 i e h1 hinv hq)
+    · simp at h
+
+/-- reachable by steps in which the load of `writer_notify` that samples the sequence number and the following re-read
+of `state` (both in `write_contended`) return the current value, and `writer_notify` stays below 2^32 -/
+def ReachableW (c : Cfg) (s : St) : Prop := ∃ progs evs, runW c (init progs) evs = some s
+
+theorem ReachableW.reachable {c : Cfg} {s : St} (h : ReachableW c s) : Reachable c s := by
+  obtain ⟨progs, evs, h⟩ := h
+  exact ⟨progs, evs, runW_run c _ s evs h⟩
+
+/-- **no lost wake-up for writers** (partial: see `ReachableW`): whenever a writer is parked on `writer_notify`,
+the writers-waiting bit is still set in the lock word (so whoever makes the word unlocked runs
+`wake_writer_or_readers`), or a `wake_writer` is already under way (`writer_notify` about to be bumped, or the
+futex wake about to be issued), or an awake writer exists that carries `other_writers_waiting = true` and puts the
+bit back when it takes the lock.  And a writer that is about to sleep, or sleeps, on the *current* value of
+`writer_notify` is covered by the bit or by a `wake_writer` that has not bumped the counter yet
+(`rw_writer_sleeps_covered`). -/
+theorem rw_writers_no_lost_wakeup_sc_partial (c : Cfg) (hc : c.Good) (s : St) (h : ReachableW c s)
+    (hp : ∃ i, parkedOn (s.ths i) 1 = true) :
+    hasWW s.state = true ∨ (∃ j, pendW (s.ths j).pc = true) ∨ (∃ j, owing (s.ths j).pc = true) := by
+  obtain ⟨progs, evs, h⟩ := h
+  obtain ⟨i, hi⟩ := hp
+  rw [parkedOn1_eq] at hi
+  exact (runW_wq c hc _ s evs h (init_inv progs) (init_wq progs)).park ⟨i, hi⟩
+
+theorem rw_writer_sleeps_covered (c : Cfg) (hc : c.Good) (s : St) (h : ReachableW c s) (i : Nat)
+    (hp : preSleep (s.ths i).pc = some s.notify) :
+    hasWW s.state = true ∨ ∃ k, pendA (s.ths k).pc = true := by
+  obtain ⟨progs, evs, h⟩ := h
+  exact (runW_wq c hc _ s evs h (init_inv progs) (init_wq progs)).pre i s.notify hp rfl
+
+/-- non-vacuity: a restricted execution that ends with a writer parked on `writer_notify` (and the bit set) -/
+def parkTrace : List (Nat × Ev) :=
+  [(0, .call .write), (0, .cas 0 true 0 WRITE_LOCKED .ok), (0, .acq),
+   (1, .call .write), (1, .cas 0 true 0 WRITE_LOCKED (.fail WRITE_LOCKED)), (1, .load 0 WRITE_LOCKED),
+   (1, .cas 0 false WRITE_LOCKED (WRITE_LOCKED + WW) .ok), (1, .load 1 0), (1, .load 0 (WRITE_LOCKED + WW)),
+   (1, .load 1 0), (1, .fwait 1 0 true)]
+
+example : (runW { genCfg with spinMax := 0 } (init [[⟨.write, 0⟩], [⟨.write, 0⟩]]) parkTrace).map
+    (fun s => parkedOn (s.ths 1) 1 && hasWW s.state && preSleep (s.ths 1).pc == some s.notify) = some true := by decide
+
+/-- why the restriction: with a *stale* re-read of `state` after the sequence number was sampled (which the
+Acquire load of `writer_notify` forbids in the real memory model, and `stepW` excludes) the unrestricted model
+reaches a state with a writer asleep on the current `writer_notify`, the word 0 and nobody left to wake it -/
+def staleTrace : List (Nat × Ev) :=
+  [(0, .call .write), (0, .cas 0 true 0 WRITE_LOCKED .ok), (0, .acq),
+   (1, .call .write), (1, .cas 0 true 0 WRITE_LOCKED (.fail WRITE_LOCKED)), (1, .load 0 WRITE_LOCKED),
+   (1, .cas 0 false WRITE_LOCKED (WRITE_LOCKED + WW) .ok),
+   (0, .rel), (0, .fsub 0 WRITE_LOCKED (WRITE_LOCKED + WW)), (0, .cas 0 false WW 0 .ok), (0, .fadd 1 1 0), (0, .fwake 1 1 []),
+   (1, .load 1 1), (1, .load 0 (WRITE_LOCKED + WW)), (1, .load 1 1), (1, .fwait 1 1 true)]
+
+theorem writer_half_needs_current_state_load :
+    (run { genCfg with spinMax := 0 } (init [[⟨.write, 0⟩], [⟨.write, 0⟩]]) staleTrace).map
+      (fun s => parkedOn (s.ths 1) 1 && s.state == 0 && (s.ths 0).pc == .idle) = some true := by decide
+theorem stale_trace_not_in_restricted_relation :
+    runW { genCfg with spinMax := 0 } (init [[⟨.write, 0⟩], [⟨.write, 0⟩]]) staleTrace = none := by decide
+
 /-
-`rw_no_lost_wakeup` (full statement kept; only the reader half above is proved):
+`rw_no_lost_wakeup` (full statement kept; the reader half and, under `ReachableW`, the writer half are proved):
   Reachable c s →
     ((∃ i, parkedOn (s.ths i) 0) → hasRW s.state ∨ ∃ j, (s.ths j).pc = .kWakeR)                       -- proved
-    ∧ ((∃ i, parkedOn (s.ths i) 1) → hasWW s.state ∨ (∃ j, wake pending at j) ∨ ∃ j, awake writer contender j)  -- NOT proved
+    ∧ ((∃ i, parkedOn (s.ths i) 1) → hasWW s.state ∨ (∃ j, wake pending at j) ∨ ∃ j, awake writer contender j)  -- proved for ReachableW only
   and hence: whenever a thread is parked some other thread can step (`rw_no_deadlock`)                  -- NOT proved
-The writer half needs the release/acquire argument on `writer_notify` (sequence sampled with Acquire before the
-relaxed re-read of `state`), i.e. a model in which relaxed loads of `state` are bounded by the thread's view; the
-present model lets a relaxed load observe any value, under which the writer half is false.
+For all of `Reachable` the writer half needs the release/acquire argument on `writer_notify` (sequence sampled with
+Acquire before the relaxed re-read of `state`), i.e. a model in which relaxed loads of `state` are bounded by the
+thread's view; the present model lets a relaxed load observe any value, under which the writer half is false
+(`ReachableW` restricts exactly those two loads to current values = the sequentially consistent reading of them).
 -/
 
 /-! ## the orderings are necessary: model-level races with a weakened ordering -/
